@@ -362,3 +362,6 @@ def url_formatting_symbolic_query(si: int, ws: bool, tail: str) -> str:
     if any(c in tail for c in '#?/ \t\r\n') or any(ord(c) < 33 or ord(c) > 126 for c in tail):
         return ''
     return verdict(_url_case(si, 1, 0, 1, ws, tail))
+
+
+from vf.validate.stubs import ALL as VALIDATE  # noqa: E402  (stub-vs-real conformance, run before the obligations)
